@@ -252,6 +252,71 @@ fn c08_error_row_never_covers_unseen() {
     core::mem::forget(chunker);
 }
 
+/// C08-H3: `send_change_chunks` — what actually goes on the wire for one version request.  The
+/// clock is symbolic (every `elapsed()` returns an arbitrary duration), so the size limit is
+/// halved at arbitrary points.  If the function returns Ok, the changesets sent tile
+/// [start,last] exactly, each change is in exactly one of them and inside its range; the only
+/// exception is the documented one: a request for the WHOLE version that has no rows sends
+/// nothing (the caller then declares the version empty).
+#[kani::proof]
+#[kani::unwind(7)]
+fn c08_send_change_chunks_tiles_on_the_wire() {
+    let start: u64 = kani::any();
+    let last: u64 = kani::any();
+    let version_last: u64 = kani::any();
+    kani::assume(start <= last && last <= version_last);
+    let (rows, seqs, len) = any_rows(start, last, None);
+    let max0: usize = kani::any();
+    let chunked = ChunkedChanges::new(rows, CrsqlSeq(start), CrsqlSeq(last), max0);
+    let sender: Sender<SyncMessage> = Sender::new(false);
+    let res = send_change_chunks(&sender, chunked, ActorId(2), CrsqlDbVersion(7), CrsqlSeq(version_last), Timestamp(1));
+    if res.is_ok() {
+        let n = sender.sent();
+        let log = sender.log.borrow();
+        if n == 0 {
+            assert!(len == 0 && start == 0 && last == version_last, "C08: nothing was sent for a request that is not an empty whole version");
+        } else {
+            let mut expect_start = start;
+            let mut reached_last = false;
+            let mut delivered = 0usize;
+            let mut k = 0;
+            while k < n {
+                assert!(!reached_last, "C08: a changeset was sent after the one ending at the requested last sequence");
+                match &log[k] {
+                    Some(SyncMessage::V1(SyncMessageV1::Changeset(ChangeV1 { changeset: Changeset::Full { changes, seqs: r, last_seq, version, .. }, .. }))) => {
+                        assert!(last_seq.0 == version_last && version.0 == 7);
+                        let (rs, re) = (r.start().0, r.end().0);
+                        assert!(rs == expect_start && rs <= re && re <= last, "C08: sent ranges are not contiguous from the requested start");
+                        let mut j = 0;
+                        while j < changes.len() {
+                            assert!(delivered < len);
+                            let c = &changes[j];
+                            assert!(c.tag as usize == delivered && c.seq.0 >= rs && c.seq.0 <= re, "C08: change outside its changeset's range or out of order");
+                            delivered += 1;
+                            j += 1;
+                        }
+                        if re == last {
+                            reached_last = true;
+                        } else {
+                            expect_start = re + 1;
+                        }
+                    }
+                    _ => {
+                        assert!(false, "C08: unexpected message kind")
+                    }
+                }
+                k += 1;
+            }
+            assert!(reached_last, "C08: sent changesets stop short of the requested last sequence");
+            assert!(delivered == len, "C08: a change was not sent");
+        }
+    }
+    kani::cover!(res.is_ok() && sender.sent() >= 2, "several changesets sent");
+    kani::cover!(res.is_ok() && sender.sent() == 1 && len == 0, "empty partial request answered with an empty changeset");
+    kani::cover!(res.is_err(), "slow peer: gave up");
+    core::mem::forget(sender);
+}
+
 /// C08-H2: `chunk_range(r, c)` — the union of the pieces is exactly `r`, every piece inside `r`,
 /// pieces ascending; T = u64 (the repository instantiates it with a transparent u64 newtype
 /// whose `Step` impl delegates to u64's).
